@@ -234,7 +234,7 @@ def _worker(args):
                     tally.fail = (case, str(v))
                     break
         else:
-            _hypothesis_shard(mod, sub, tally, regions, n_examples, seed, tier)
+            _hypothesis_shard(mod, sub, tally, regions, n_examples, seed, tier, shard)
     except _HarnessError as h:
         tally.harness = str(h)
     except Exception:  # noqa: BLE001
@@ -246,18 +246,20 @@ def _worker(args):
     return out
 
 
-def _hypothesis_shard(mod, sub, tally, regions, n_examples, seed, tier):
+def _hypothesis_shard(mod, sub, tally, regions, n_examples, seed, tier, shard=0):
     import hypothesis
     from hypothesis import HealthCheck, Phase, given, settings
 
     phases = [Phase.generate]
     if tier == "thorough" or sub.shrink_quick:
         phases.append(Phase.shrink)
-    state = {"failing": False}
+    # Hypothesis starts every run with the simplest example of the strategy: all shards but the first skip it
+    # (it would be the same case 16 times) and draw one more instead
+    state = {"failing": False, "skip_first": shard > 0}
 
     @hypothesis.seed(seed)
     @settings(
-        max_examples=n_examples,
+        max_examples=n_examples + (1 if shard > 0 else 0),
         database=None,
         deadline=None,
         derandomize=False,
@@ -268,6 +270,9 @@ def _hypothesis_shard(mod, sub, tally, regions, n_examples, seed, tier):
     )
     @given(sub.strategy())
     def body(case):
+        if state["skip_first"]:
+            state["skip_first"] = False
+            return
         try:
             run_one(mod, sub, case, tally, regions, record=not state["failing"])
         except PropertyViolation as v:
